@@ -95,7 +95,7 @@ def setup_worker(k):
 
 def run_mutant(k, m):
     w = f"{BASE}/w{k}"; repo = f"{w}/repo"
-    env = dict(os.environ, CARGO_NET_OFFLINE="true", VERIF_EVIDENCE_DIR=f"{w}/evidence", VERIF_TOOL_TIMEOUT=os.environ.get("VERIF_TOOL_TIMEOUT", "240"))
+    env = dict(os.environ, CARGO_NET_OFFLINE="true", H264_REPO=repo, VERIF_EVIDENCE_DIR=f"{w}/evidence", VERIF_TOOL_TIMEOUT=os.environ.get("VERIF_TOOL_TIMEOUT", "240"))
     tenv = dict(env, CARGO_TARGET_DIR=f"{w}/target")      # (only for the crate's own test suite; the harness has its own target dir)
     sh("git checkout -q -- .", cwd=repo)
     p = f"{repo}/{m['file']}"
